@@ -306,6 +306,8 @@ def run_instance(inst, tier):
                 check_net(res, inst["tset"], inst["N"], pl, "reversed-insertion")
             if len(pl) <= 2:
                 check_net(res, inst["tset"], inst["N"], pl, "string-labels")
+            if len(pl) == 3:
+                check_net(res, inst["tset"], inst["N"], pl, "large-int-labels")
             if len(res.violations) >= 10:
                 return res
     return res
